@@ -6,7 +6,7 @@ import itertools, json, os, subprocess, sys, time
 from concurrent.futures import ThreadPoolExecutor
 
 V = os.path.dirname(os.path.dirname(os.path.abspath(__file__)))
-PROBE = os.path.join(V, "build", "h", "C16_probe")
+PROBE = os.path.join(V, "build", "h" + os.environ.get("VERIF_BUILD_TAG", ""), "C16_probe")
 NPU = os.cpu_count() or 16
 
 
